@@ -118,6 +118,12 @@ def plan(prop, tier):
                                                                 allowFail=False), None))
             g = {"nodes": [{"id": 1, "kind": "interval", "period": 1}, {"id": 2, "kind": "interval", "period": 2},
                            {"id": 3, "kind": "merge", "ups": [1, 2]}, {"id": 4, "kind": "take", "n": 2, "ups": [3]}], "root": 4}
+            # README: pipe!(interval, map, filter, take, for_each)
+            g = {"nodes": [{"id": 1, "kind": "interval", "period": 1}, {"id": 2, "kind": "map", "f": "inc", "ups": [1]},
+                           {"id": 3, "kind": "filter", "p": "odd", "ups": [2]}, {"id": 4, "kind": "take", "n": 2, "ups": [3]}],
+                 "root": 4}
+            fams.append(("interval_pipeline", scen.with_bounds(g, "take", sinks=["foreach"], maxTop=6 if tier == "quick" else 8,
+                                                               maxPull=0, allowFail=False), None))
             fams.append(("interval_merge_take", scen.with_bounds(g, "take", maxTop=5 if tier == "quick" else 7, maxPull=0,
                                                                  allowFail=False), None))
         if prop == "C17":
